@@ -137,6 +137,29 @@ func caseGen(r *mon.Rec, idx int) {
 			r.Violate("C07:equal-contents-different-bytes", fmt.Sprintf("a packet with equal contents whose byte slices have spare capacity encodes differently (first difference at offset %d)", d), rp)
 			return
 		}
+		// two packets may share the storage of an option value (the library's own WithOptionCopied does it, a struct copy
+		// with a copied map does it): updating the option in one of them leaves the other what it was
+		if len(p.Options) > 0 {
+			sib := *p
+			sib.Options = dhcpv4.Options{}
+			var codes []int
+			for c, v := range p.Options {
+				sib.Options[c] = v // same backing array
+				codes = append(codes, int(c))
+			}
+			sort.Ints(codes)
+			c := uint8(codes[rng.IntN(len(codes))])
+			old := p.Options[c]
+			nv := gen4.Bytes(rng, max(1, len(old)-rng.IntN(2)))
+			for i := range nv {
+				nv[i] |= 0x41
+			}
+			sib.Options.Update(dhcpv4.OptGeneric(dhcpv4.GenericOptionCode(c), nv))
+			if w := p.ToBytes(); !bytes.Equal(w, first) {
+				r.Violate("C07:sibling-update-changes-encoding", fmt.Sprintf("updating option %d in a packet that shares the value's storage changed the encoding of the other packet", c), rp)
+				return
+			}
+		}
 		// standalone options encoding = the options area without End
 		ob := p.Options.ToBytes()
 		full := append(append(append([]byte{}, first[:240]...), ob...), 255)
